@@ -1,8 +1,8 @@
 SPECIFICATION TraceSpec
 CONSTANTS
   Vals = {"null", "miss", "F", "T", "i0", "i1", "i2", "nm1", "n0", "n1", "n1h", "n2", "n10", "se", "s10", "sa", "sb"}
-  NF = 1
-  Desc = {}
+  NF = 3
+  Desc = {2}
   Mode = "indexspec"
   Semantics = "memory"
   Insts = {1, 2, 3}
